@@ -382,6 +382,39 @@ impl Subject for STja {
     relocate!();
 }
 
+/// the same two combinators over outputs that have no destructor
+pub type PF = ScriptFut<PTok>;
+pub type PTF = ScriptFut<Result<PTok, PTok>>;
+pub struct SJaP(pub JoinAll<PF>);
+impl Subject for SJaP {
+    fn poll(&mut self, cx: &mut Context<'_>) -> PollOut {
+        use std::future::Future;
+        match in_crate(|| Pin::new(&mut self.0).poll(cx)) {
+            Poll::Pending => PollOut::Pending,
+            Poll::Ready(v) => PollOut::Vec(v.into_iter().map(|p| p.into_tok()).collect()),
+        }
+    }
+    fn obs(&self) -> Obs {
+        Obs::default()
+    }
+    relocate!();
+}
+pub struct STjaP(pub TryJoinAll<PTF>);
+impl Subject for STjaP {
+    fn poll(&mut self, cx: &mut Context<'_>) -> PollOut {
+        use std::future::Future;
+        match in_crate(|| Pin::new(&mut self.0).poll(cx)) {
+            Poll::Pending => PollOut::Pending,
+            Poll::Ready(Ok(v)) => PollOut::TryVec(Ok(v.into_iter().map(|p| p.into_tok()).collect())),
+            Poll::Ready(Err(e)) => PollOut::TryVec(Err(e.into_tok())),
+        }
+    }
+    fn obs(&self) -> Obs {
+        Obs::default()
+    }
+    relocate!();
+}
+
 // ---------------------------------------------------------------- construction
 
 #[derive(Clone, Copy, PartialEq, Eq, Debug, Hash)]
@@ -412,6 +445,9 @@ pub enum Kind {
     Fec(usize),
     Ja(usize),
     Tja(usize),
+    /// join_all / try_join_all over plain-data outputs
+    JaP(usize),
+    TjaP(usize),
 }
 
 impl Kind {
@@ -443,10 +479,10 @@ impl Kind {
         matches!(self, Kind::Bu(_) | Kind::Bo(_) | Kind::Tbu(_) | Kind::Tbo(_) | Kind::Fec(_))
     }
     pub fn is_join(self) -> bool {
-        matches!(self, Kind::Ja(_) | Kind::Tja(_))
+        matches!(self, Kind::Ja(_) | Kind::Tja(_) | Kind::JaP(_) | Kind::TjaP(_))
     }
     pub fn is_try(self) -> bool {
-        matches!(self, Kind::Tbu(_) | Kind::Tbo(_) | Kind::Tja(_))
+        matches!(self, Kind::Tbu(_) | Kind::Tbo(_) | Kind::Tja(_) | Kind::TjaP(_))
     }
     /// capacity of the bounded types (None = unbounded or not applicable)
     pub fn bound(self) -> Option<usize> {
@@ -459,7 +495,7 @@ impl Kind {
     pub fn alloc_free(self) -> bool {
         matches!(
             self,
-            Kind::Fub(_) | Kind::FubIter(_) | Kind::Mb(_) | Kind::Bu(_) | Kind::Tbu(_) | Kind::Fec(_) | Kind::Ja(_) | Kind::Tja(_)
+            Kind::Fub(_) | Kind::FubIter(_) | Kind::Mb(_) | Kind::Bu(_) | Kind::Tbu(_) | Kind::Fec(_) | Kind::Ja(_) | Kind::Tja(_) | Kind::JaP(_) | Kind::TjaP(_)
         )
     }
 }
@@ -519,6 +555,14 @@ pub fn build(kind: Kind, prefill: &[u32]) -> Option<Box<dyn Subject>> {
             Kind::Tja(_) => {
                 let it: Vec<TF> = prefill.iter().map(|&i| TF::new(i)).collect();
                 Box::new(STja(in_crate(|| try_join_all(it))))
+            }
+            Kind::JaP(_) => {
+                let it: Vec<PF> = prefill.iter().map(|&i| PF::new(i)).collect();
+                Box::new(SJaP(in_crate(|| join_all(it))))
+            }
+            Kind::TjaP(_) => {
+                let it: Vec<PTF> = prefill.iter().map(|&i| PTF::new(i)).collect();
+                Box::new(STjaP(in_crate(|| try_join_all(it))))
             }
         }
     }));
